@@ -103,6 +103,15 @@ func (ex *Exec) step(in ssa.Instruction) {
 	case *ssa.IndexAddr:
 		ex.stepIndexAddr(x)
 	case *ssa.Index:
+		base := ex.val(x.X)
+		idx := ex.val(x.Index)
+		if base.T != nil && base.T.S == SStr {
+			ex.panicCheck("index", And(Le(IntLit(0), idx.T), Lt(idx.T, SLen(base.T))), x.Pos(),
+				fmt.Sprintf("string index %s[%s] in range", describe(x.X), describe(x.Index)))
+			ex.defVal(x, SAt(base.T, idx.T))
+			ex.byteRange(ex.vals[x].T)
+			break
+		}
 		ex.fail("array value indexing unsupported")
 		ex.setVal(x, ex.freshVal("undef", x.Type()))
 	case *ssa.Lookup:
@@ -522,6 +531,7 @@ func (ex *Exec) stepLookup(x *ssa.Lookup) {
 		ex.panicCheck("index", And(Le(IntLit(0), idx.T), Lt(idx.T, SLen(base.T))), x.Pos(),
 			fmt.Sprintf("string index %s[%s] in range", describe(x.X), describe(x.Index)))
 		ex.defVal(x, SAt(base.T, idx.T))
+		ex.byteRange(ex.vals[x].T)
 	case *types.Map:
 		key := ex.mapKey(idx, t.Key())
 		vs := sortOf(t.Elem())
